@@ -31,6 +31,14 @@ CHECKS["C04"] = (
     "in-band value, per batch member; peak frequency/period/angular frequency/direction/spread are the grid/per-frequency "
     "values at that index; peak_wavenumber and peak_wave_speed call the dispersion solver (uninterpreted K) with "
     "(2*pi*f_peak, depth or +inf for missing depth); 2D spectra use e(f)=sum E dtheta.", "DESIGN.md#c04", "")
+CHECKS["C03"] = (
+    "For every non-negative symbolic e(f), symbolic moments and band (nf<=3, thorough 5): mean_a1..b2 times m0 equal the "
+    "trapezoid of moment*e over the band; mean/peak/per-frequency direction and spread are atan2(B,A) and "
+    "sqrt(2-2sqrt(A^2+B^2)) in degrees (term equality through uninterpreted atan2/sqrt); directions in [-180,180]; for "
+    "moments in the unit disc the band average stays in the disc (chain of solver-checked convexity steps) and the "
+    "spread is in [0,81.03]; on uniform direction grids N in {4,6} (thorough 8,12) with exact algebraic cos/sin, "
+    "rotating a 2D spectrum by k bins or mirroring it rotates/mirrors (A1,B1), (A2,B2) and the band averages exactly and "
+    "leaves e, moments, peak index and spread unchanged.", "DESIGN.md#c03", "")
 NA = {}
 
 ALL = [f"C{i:02d}" for i in range(1, 21)]
